@@ -38,7 +38,7 @@ int vnacal_delete_parameter(vnacal_t *vcp, int parameter)
 {
     vnacal_parameter_t *vpmrp;
 
-    if (parameter < VNACAL_PREDEFINED_PARAMETERS) {
+    if (parameter >= 0 && parameter < VNACAL_PREDEFINED_PARAMETERS) {
 	return 0;
     }
     vpmrp = _vnacal_get_parameter(vcp, parameter);
